@@ -712,3 +712,105 @@ def run(ctx):
     ctx.notes.append('float tolerances measured on 1.25e5 float queries: with the cell-ambiguity band of `ambiguous` and zero '
                      'distance slack every remaining flag had a relative squared-distance gap <= 3e-16; with FLOAT_REL = 1e-9 '
                      'no flag at all')
+    # ======== "sitecov" input stream - self-contained, implemented at the end of this file; keep this call last ========
+    _sitecov_tail(ctx)
+
+
+# ================================================================================================
+# "sitecov" input stream (harness/sitecov.py, DESIGN 3c): the class spatial_grid.Index is instrumented as a whole
+# (__init__, find_adjacents, nearest, remove_path); every comparison / truthiness site is driven to lhs == rhs and to
+# either side - separately for the first executions of each site in a call - by exact moves on one coordinate of one
+# path end or of the query point (Fractions; non-zero extent kept) and on the number of bins (1..6); the histories found
+# (build, removals, one query) go through run() itself (real code, Lean model, oracle) and are additionally counted
+# under the path 'sitecov'.  Most numeric decisions of this class are taken by floor / min / max, which are not
+# comparison sites: the stream covers the distance ties, the index tests and the adjacency tests.
+# Self-contained block at the end of the file on purpose (the body of `run` is untouched except for its last line).
+# ================================================================================================
+def _sitecov_domain(a):
+    verts, bins, rev, removes, q = a
+    n = len(verts)
+    if not (type(bins) is int and 1 <= bins <= 6 and n >= 1 and type(rev) is bool):
+        return False
+    if not all(type(c) in (int, F) and abs(c) <= 10 ** 6 for v in verts for p in v for c in p) \
+            or not all(type(c) in (int, F) and abs(c) <= 10 ** 6 for c in q):
+        return False
+    if len(set(removes)) != len(removes) or not all(type(k) is int and 0 <= k < n for k in removes):
+        return False
+    return not zero_extent(verts, rev)
+
+
+def _sitecov_apply(tw, a):
+    verts, bins, rev, removes, q = a
+    idx = tw.cls(verts, bins, rev)
+    for k in removes:
+        idx.remove_path(k)
+    return idx.nearest(q)
+
+
+def _sitecov_rerun(ctx, cases):
+    from . import sitecov
+    payload = {'violations': [{'input': {'vertices': [[[str(F(c)) for c in p] for p in v] for v in verts], 'bins': bins,
+                                         'reverse': rev, 'mode': 'exact',
+                                         'history': [['remove', k] for k in removes] + [['query', [str(F(q[0])), str(F(q[1]))]]]}}
+                              for (verts, bins, rev, removes, q) in cases]}
+    sitecov.rerun_patched(ctx, globals(), over={'scale': 0}, replay=payload, patches={'exhaustive_small': lambda: []})
+
+
+def _sitecov_plain_verts(rng, n, style=None, rev=None):
+    den = rng.choice([97, 1009, 10007])
+    g = lambda: F(rng.randint(-40 * den, 40 * den), den)      # noqa: E731
+    return [[[g(), g()], [g(), g()]] for _ in range(n)]
+
+
+def _sitecov_tail(ctx):
+    import os
+    if getattr(ctx, '_in_sitecov', False) or getattr(ctx, '_only_main', False) or getattr(ctx, 'replay', None) \
+            or os.environ.get('SITECOV_OFF'):
+        return
+    from . import sitecov
+    from plotink import spatial_grid as sg
+    rng = ctx.rng
+    only = bool(os.environ.get('SITECOV_ONLY'))
+    seeds = []
+    while len(seeds) < 100:
+        style, n, bins, rev, verts, _nops = gen_history(rng, 5, 3)
+        if only:
+            verts = _sitecov_plain_verts(rng, n)
+        verts = [[[F(c) for c in p] for p in v] for v in verts]
+        if zero_extent(verts, rev):
+            continue
+        removes = tuple(rng.sample(range(n), rng.choice([0, 0, 1]) if n > 1 else 0))
+        e = rng.choice(verts)[rng.randint(0, 1)]
+        q = [e[0] + F(rng.randint(-4000, 4000), 1009), e[1] + F(rng.randint(-4000, 4000), 1009)] if (only or rng.random() < 0.7) \
+            else [F(e[0]), F(e[1])]
+        seeds.append((verts, bins, rev, removes, q))
+    fixed = lambda path, v: 'fixed' if path[0] in (2, 3) else None      # noqa: E731  (reverse flag, removal list)
+    sitecov.stream(ctx, 'spatial_grid.Index', sg.Index, seeds, rerun=lambda cs: _sitecov_rerun(ctx, cs), apply=_sitecov_apply,
+                   moves=sitecov.Moves(kinds=fixed, lo={(1,): 1}, hi={(1,): 6}, domain=_sitecov_domain,
+                                       groups=lambda path, v: 'xy'[path[-1]] if path[0] in (0, 4) else None), budget=2000,
+                   max_inputs=200)
+
+
+import os as _os      # noqa: E402
+if _os.environ.get('SITECOV_ONLY'):
+    # EXPERIMENT ONLY (measures what the sitecov stream finds on its own): the exhaustive stencil histories, the
+    # structured vertex shapes (lines, coincident ends), the structured query pool (ends, midpoints, cell borders) and
+    # the near-tie generator are disabled; the pinned corpus is read inline by run() and stays
+    from . import sitecov as _sc
+
+    def _plain_queries(rng, verts, n, rev, geo, style):
+        xmin, ymin, bx, by, bins = geo
+        return [[xmin + F(rng.randint(-300, 1300), 1009) * bins * bx, ymin + F(rng.randint(-300, 1300), 1009) * bins * by]
+                for _ in range(8)]
+
+    def _plain_near_tie(rng, mode):
+        n = rng.randint(2, 5)
+        verts = [[[conv(c, mode) for c in p] for p in v] for v in
+                 [[[F(rng.randint(-10 ** 6, 10 ** 6)) for _ in range(2)] for _ in range(2)] for _ in range(n)]]
+        return verts, rng.choice([1, 2, 3, 4]), rng.random() < 0.5, [('q', [conv(F(rng.randint(-10 ** 6, 10 ** 6)), mode),
+                                                                          conv(F(rng.randint(-10 ** 6, 10 ** 6)), mode)])]
+    _sc.only_mode(globals(), tail=_sitecov_tail,
+                  patches={'exhaustive_small': lambda: [], 'gen_verts': _sitecov_plain_verts, 'gen_queries_exact': _plain_queries,
+                           'gen_near_tie': _plain_near_tie},
+                  note='exhaustive stencil histories, structured vertex shapes, the structured query pool and the near-tie '
+                       'generator are disabled (pinned corpus stays); inputs = unbiased random histories + the sitecov stream')
